@@ -48,7 +48,7 @@ def labels(rng):
     count = rng.choice([0, 1, 2, 3, 5])
     result = []
     for _ in range(count):
-        result.append(rng.choice(['example', 'com', 'a', 'mail', 'sub-domain', 'x' * 63, 'n%d' % rng.randrange(1000), 'org', 'MAIL', 'Example', 'xN']))
+        result.append(rng.choice(['example', 'com', 'a', 'mail', 'sub-domain', 'x' * 63, 'n%d' % rng.randrange(1000), 'org', 'MAIL', 'Example', 'xN', 'first.last', 'a.b.c', '_dmarc', '*']))
     return result
 
 
@@ -144,7 +144,8 @@ def rrsig(rng):
              datetime.timezone(datetime.timedelta(minutes=330))]
     lib = record.DnsRecordRrsig(
         covered_lib, algorithm, label_count, ttl, datetime.datetime.fromtimestamp(times[0], rng.choice(zones)),
-        datetime.datetime.fromtimestamp(times[1], rng.choice(zones)), tag, record.DnsNameUncompressed(list(signer)) if rng.random() < 0.5 else '.'.join(signer), signature)
+        datetime.datetime.fromtimestamp(times[1], rng.choice(zones)), tag, record.DnsNameUncompressed(list(signer)) if any('.' in label for label in signer) or rng.random() < 0.5 else '.'.join(signer),
+        signature)
     wire = ref.rrsig(covered, algorithm.value.code, label_count, ttl, times[0], times[1], tag,
                      [label.encode('ascii') for label in signer], signature)
     return Pair('rrsig', lib, wire)
@@ -170,7 +171,8 @@ def mx(rng):  # pylint: disable=invalid-name
     preference = rng.choice([0, 1, 10, 65535, rng.randrange(65536)])
     exchange = labels(rng)
     # the name as a label list or, as callers usually have it, as dotted text (letter case is preserved on the wire)
-    given = record.DnsNameUncompressed(list(exchange)) if rng.random() < 0.5 else '.'.join(exchange)
+    dotted = any('.' in label for label in exchange)      # a label holding a '.' octet cannot be written as dotted text
+    given = record.DnsNameUncompressed(list(exchange)) if dotted or rng.random() < 0.5 else '.'.join(exchange)
     lib = record.DnsRecordMx(preference, given)
     return Pair('mx', lib, ref.mx(preference, [label.encode('ascii') for label in exchange]))
 
